@@ -608,6 +608,9 @@ func (fr *frame) execUnOp(i *ssa.UnOp, st *State, reach string) {
 		case *PtrField:
 			a := fc.heapGet(st, pt.Arr, arr(SInt, pt.Sort))
 			v := Term{sel(a.S, pt.Base.S), pt.Sort}
+			if pt.StructT != nil && len(fc.e.specs.FieldInvs) > 0 && !strings.Contains(pt.Name, ".") {
+				fc.assumeFieldInv(st, pt.Base, pt.StructT, pt.Name)
+			}
 			if pt.Sort == SInt && pt.FieldT != nil && isRefType(pt.FieldT) {
 				v = fc.define(i.Name(), v)
 				fc.assumeAllocatedFrom(st, v, a)
@@ -898,13 +901,13 @@ func (fr *frame) binop(i *ssa.BinOp, reach string) Val {
 		case token.ADD:
 			return fc.define(i.Name(), Term{"(str.++ " + x.S + " " + y.S + ")", SString})
 		case token.LSS:
-			return cmp("str.<")
+			return Term{fc.strLess(x.S, y.S), SBool}
 		case token.LEQ:
-			return cmp("str.<=")
+			return Term{not(fc.strLess(y.S, x.S)), SBool}
 		case token.GTR:
-			return Term{"(str.< " + y.S + " " + x.S + ")", SBool}
+			return Term{fc.strLess(y.S, x.S), SBool}
 		case token.GEQ:
-			return Term{"(str.<= " + y.S + " " + x.S + ")", SBool}
+			return Term{not(fc.strLess(x.S, y.S)), SBool}
 		}
 	case SF64:
 		name := map[token.Token]string{token.ADD: "f64$add", token.SUB: "f64$sub", token.MUL: "f64$mul", token.QUO: "f64$div"}[op]
@@ -1100,4 +1103,19 @@ func (fc *FnCtx) mulTerm(a, b string) string {
 		fc.decls = append(fc.decls, "(assert (forall ((a Int) (b Int)) (! (= (mul$ a b) (* a b)) :pattern ((mul$ a b)))))")
 	}
 	return "(mul$ " + a + " " + b + ")"
+}
+
+// strLess: lexicographic a < b on byte strings through a declared function defined to be str.<
+// (congruence then needs no string reasoning; the order itself is still str.<, a total order, so
+// a <= b is written not (b < a)).
+func (fc *FnCtx) strLess(a, b string) string {
+	if fc.opaque() {
+		return "(str.< " + a + " " + b + ")"
+	}
+	if !fc.declSet["strlt$"] {
+		fc.declSet["strlt$"] = true
+		fc.decls = append(fc.decls, "(declare-fun strlt$ (String String) Bool)")
+		fc.decls = append(fc.decls, "(assert (forall ((a String) (b String)) (! (= (strlt$ a b) (str.< a b)) :pattern ((strlt$ a b)))))")
+	}
+	return "(strlt$ " + a + " " + b + ")"
 }
